@@ -87,7 +87,7 @@ def systematic(tier):
         r = rng.rng_for('C05-sweep', rng.verif_seed(), j)
         w, cfg = common.gen_stream_workload(r, max_values=2, small=True)
         kind = ['file', 'pipe'][j % 2]
-        out.append({'check': ID, 'workload': w, 'sweep': True,
+        out.append({'check': ID, 'workload': w, 'sweep': True, 'timeout_s': 900,
                     'config': {'kind': kind, 'threshold': None if kind == 'file' else [16, 8192][(j // 2) % 2],
                                'prewrap': bool((j // 4) % 2)},
                     'steps': []})
@@ -97,7 +97,7 @@ def systematic(tier):
         r = rng.rng_for('C05-partitions', rng.verif_seed(), j)
         w = _tiny_workload(r, 11 if tier == 'quick' else 14)
         kind = ['file', 'pipe', 'file'][j % 3]
-        out.append({'check': ID, 'workload': w, 'partitions': True, 'max_len': 11 if tier == 'quick' else 14,
+        out.append({'check': ID, 'workload': w, 'partitions': True, 'timeout_s': 1800, 'max_len': 11 if tier == 'quick' else 14,
                     'close_with_last': bool(j % 2),
                     'config': {'kind': kind, 'threshold': None if kind == 'file' else 8192, 'prewrap': False},
                     'steps': []})
@@ -109,7 +109,7 @@ def systematic(tier):
         r = rng.rng_for('C05-fault-partitions', rng.verif_seed(), j)
         w = _tiny_workload(r, 6 if tier == 'quick' else 8)
         kind = ['pipe', 'file', 'pipe'][j % 3]
-        out.append({'check': ID, 'workload': w, 'fault_partitions': True, 'max_len': 6 if tier == 'quick' else 8,
+        out.append({'check': ID, 'workload': w, 'fault_partitions': True, 'timeout_s': 1800, 'max_len': 6 if tier == 'quick' else 8,
                     'close_with_last': bool((j // 3) % 2),
                     'config': {'kind': kind, 'threshold': None if kind == 'file' else [8192, 4][(j // 3) % 2],
                                'prewrap': bool(j % 2) and kind == 'pipe'},
